@@ -743,3 +743,13 @@ func rdconnGen(tier string, rng *rand.Rand, emit func(Case)) {
 		emit(Case{Line: "rdconn " + hx(s), Kind: "reader-random"})
 	}
 }
+
+// rule addenda (rounds 9-12): what the evidence says about the coverage of a run
+func init() {
+	if p := registry["C06"]; p != nil {
+		p.Rule += " EED messages ending in one or two line feeds / CR LF."
+	}
+	if p := registry["C10"]; p != nil {
+		p.Rule += " rdconn: arbitrary packets on a connection with channels 0 and 1 and the real reader goroutine — every message type 0..255 on a known and on an unknown channel, header-only and with a body, random streams — each case in a process of its own (a crash of the reader goroutine cannot be recovered); login-hostile lines; tx lines with a packet size announced while a message is being composed."
+	}
+}
